@@ -214,8 +214,9 @@ func oracleLabels(o *hxlib.Out, idx int, replay string, bi int, b ibatch, r ibat
 }
 
 // uncoveredFrom returns the first row index (absolute) of the last chunk that
-// `ReceiveBits` does not XOR with the choice words (it XORs `byteRows/8` whole
-// 64-bit words only); n if every row is covered.
+// `ReceiveBits` did not XOR with the choice words BEFORE commit 564d319 (it
+// XORed `byteRows/8` whole 64-bit words only); n if every row was covered.
+// Used to exercise and to classify that (fixed) defect.
 func uncoveredFrom(n int) int {
 	const chunkRows = 512
 	last := (n - 1) / chunkRows * chunkRows
@@ -243,14 +244,18 @@ func oracleBits(o *hxlib.Out, idx int, replay string, bi int, b ibatch, r ibatch
 	wrong := 0
 	first := -1
 	unc := uncoveredFrom(b.n)
-	// positions the known ReceiveBits defect predicts to be wrong: rows of
-	// the uncovered tail whose choice bit is 1, when Delta bit 0 is 1.
+	// positions the pre-564d319 ReceiveBits defect made wrong: rows of the
+	// uncovered tail whose choice bit is 1, when Delta bit 0 is 1.
+	predictedAny := false
 	exact := true
 	for i := 0; i < b.n; i++ {
 		c := bitOf(b.words, i)
 		want := bitOf(r.swords, i) != (c && d0)
 		bad := bitOf(r.rwords, i) != want
 		predicted := d0 && c && i >= unc
+		if predicted {
+			predictedAny = true
+		}
 		if bad != predicted {
 			exact = false
 		}
@@ -271,17 +276,21 @@ func oracleBits(o *hxlib.Out, idx int, replay string, bi int, b ibatch, r ibatch
 	}
 	o.CountN("oracle_iknp_bits_positions", b.n)
 	if unc < b.n {
-		o.Count("bits_batches_with_uncovered_tail")
+		o.Count("bits_batches_with_partial_last_word")
+	}
+	if predictedAny {
+		// inputs on which the code before 564d319 gave a wrong bit
+		o.Count("bits_batches_old_defect_inputs")
 	}
 	if stray {
 		o.Fail("c06-bits-stray", map[string]any{"case": idx, "replay": replay, "batch": bi, "n": b.n,
 			"swords": clipS(wordsHex(r.swords), 200), "rwords": clipS(wordsHex(r.rwords), 200)})
 	}
 	if wrong > 0 && exact {
-		// the known ReceiveBits defect: report the first few, count the rest
-		// (the harness keeps only 20 failures; other failures must not be
-		// crowded out)
-		o.Count("bits_known_defect_batches")
+		// the ReceiveBits defect fixed by 564d319 is back: report the first
+		// few, count the rest (the harness keeps only 20 failures; other
+		// failures must not be crowded out)
+		o.Count("bits_old_defect_reproduced_batches")
 		knownBitsReported++
 		if knownBitsReported > 3 {
 			o.Counters["oracle_fail"]++
